@@ -183,21 +183,18 @@ def entry (a : Analysis) (c : Call) : Except BindErr Dispatch := do
     if (valAt i).isNone then throw .missingRequired
   for n in a.kwReq do
     if !(kws.any (fun s => s.1 == n)) then throw .missingRequired
-  -- first omitted optional positional: early exit with truncated key and arguments (L149-160)
+  -- first omitted optional positional: early exit with the positional prefix (L149-161); keyword-only
+  -- arguments are kept (since the `fix:` for finding D8)
   let firstMissing := (List.range a.npos).find? (fun i => i ≥ a.nreq && (valAt i).isNone)
-  match firstMissing with
-  | some m =>
-    let vals := (List.range m).filterMap valAt
-    return { key := vals.zipIdx.map (fun (v, i) => (Slot.pos i, keyTy (a.complexPos.contains i) v)),
-             passPos := vals, passKw := [] }
-  | none =>
-    let vals := (List.range a.npos).filterMap valAt
-    let kreq := a.kwReq.filterMap (fun n => (kws.find? (fun s => s.1 == n)))
-    let kopt := a.kwOpt.filterMap (fun n => (kws.find? (fun s => s.1 == n)))
-    let kk := kreq ++ kopt
-    return { key := vals.zipIdx.map (fun (v, i) => (Slot.pos i, keyTy (a.complexPos.contains i) v)) ++
-                    kk.map (fun (n, v) => (Slot.kw n, keyTy (a.complexKw.contains n) v)),
-             passPos := vals, passKw := kk }
+  let kreq := a.kwReq.filterMap (fun n => (kws.find? (fun s => s.1 == n)))
+  let kopt := a.kwOpt.filterMap (fun n => (kws.find? (fun s => s.1 == n)))
+  let kk := kreq ++ kopt
+  let vals := match firstMissing with
+    | some m => (List.range m).filterMap valAt
+    | none => (List.range a.npos).filterMap valAt
+  return { key := vals.zipIdx.map (fun (v, i) => (Slot.pos i, keyTy (a.complexPos.contains i) v)) ++
+                  kk.map (fun (n, v) => (Slot.kw n, keyTy (a.complexKw.contains n) v)),
+           passPos := vals, passKw := kk }
 
 /-- binding of the forwarded arguments by the selected method itself (its own defaults fill the rest);
     `none` = CPython raises TypeError inside the call -/
